@@ -18,6 +18,9 @@
 (*  inv    a numeric cast followed by its inverse                    K4    *)
 (*  text   values -> Utf8 -> values of the same type                 K5    *)
 (*  dtype  DataType -> Display -> FromStr                            K6    *)
+(*  text2v texts (code point sequences) -> integer / duration / decimal /  *)
+(*         boolean / time of day: the cast from a string column in both    *)
+(*         modes, or Parser::parse row by row, against TextVal      K2 K3  *)
 (*                                                                         *)
 (* Rows of the non-exact families are canonical tokens (vcore::tok), "~"   *)
 (* is null.                                                                *)
@@ -148,6 +151,33 @@ CastgKF(ev) ==
        THEN "C13-dictionary-cast-fails-on-unreferenced-value"
   ELSE ""
 
+(* ------------------------------ text -> value ---------------------------- *)
+(* api = "cast": strict errs iff some non-null text is not in the language of *)
+(* the target or denotes a value out of range, safe nulls exactly those rows; *)
+(* api = "parse": Parser::parse row by row (None = null), no strict side      *)
+TextExp(ev, i) == TextVal(ev.b, ev.in[i])
+Text2vOK(ev) ==
+  /\ ev.cls # "panic"
+  /\ (ev.api = "cast" => StrictOKx(ev, LAMBDA i : TextExp(ev, i), NoFree) /\ TypesOK(ev))
+  /\ SafeOKx(ev, LAMBDA i : TextExp(ev, i), NoFree, FALSE)
+
+(* atoi 3.1.0 (the integer parser arrow-cast uses) takes the first five digits *)
+(* of a negative i16 without overflow checks (NUM_SAFE_DIGITS_NON_POSITIVE = 5  *)
+(* instead of 4): "-32769" parses as 32767.  Identified by: target Int16, the   *)
+(* text is (whitespace) '-' digits with at least five digits whose first five   *)
+(* exceed 32768; every other row must be exactly right                          *)
+Int16Wraps(s) ==
+  LET t == TrimBoth(s, AsciiWS) IN
+  /\ Len(t) >= 6 /\ t[1] = 45 /\ AllDigits(Tail(t))
+  /\ ~BIn(16, 1, Neg(DigitsVal(SubSeq(t, 2, 6))))
+Text2vKF(ev) ==
+  LET wraps(i) == Int16Wraps(ev.in[i]) IN
+  IF ev.cls # "panic" /\ ev.b.f = "int" /\ ev.b.w = 16 /\ ev.b.sg = 1 /\
+     (\E i \in 1..Len(ev.in) : ev.iv[i] = 1 /\ wraps(i)) /\
+     (ev.api = "cast" => StrictOKx(ev, LAMBDA i : TextExp(ev, i), wraps) /\ TypesOK(ev)) /\
+     SafeOKx(ev, LAMBDA i : TextExp(ev, i), wraps, FALSE)
+  THEN "C13-string-to-int16-negative-wraps" ELSE ""
+
 (* ---------------------------------- K4 ----------------------------------- *)
 ReencOK(ev) ==
   /\ ev.f_cls # "panic" /\ ev.b_cls # "panic"
@@ -177,5 +207,6 @@ Next ==
        [] ev.k = "inv"   -> Judge(InvOK(ev), l, "K4inv")
        [] ev.k = "text"  -> Judge(TextOK(ev), l, "K5")
        [] ev.k = "dtype" -> JudgeKF(DtypeOK(ev), l, "K6", DtypeKF(ev))
+       [] ev.k = "text2v" -> JudgeKF(Text2vOK(ev), l, "text2v", Text2vKF(ev))
 Spec == Init /\ [][Next]_l
 =============================================================================
